@@ -560,6 +560,43 @@ def _effective_events(P, E, b):
                                                 "std::iter::Iterator::all"):
                     if t.kind == "closure" and ty_closure_arg(c, t):
                         iterating.add((s.bb, t.id))
+    # a lazy adapter's iterator consumed piecemeal by a NESTED closure (`let mut pool = (0..n).map(|_| register()); ..
+    # inputs.for_each(|o| o.subscribe(pool.next().unwrap()))`): the registering closure runs wherever that nested closure runs
+    CONSUMING = ("std::iter::Iterator::next", "std::iter::Iterator::nth", "std::iter::Iterator::last", "std::iter::Iterator::for_each",
+                 "std::iter::Iterator::collect", "std::iter::FromIterator::from_iter", "std::iter::Iterator::count", "std::iter::Iterator::fold",
+                 "std::iter::Iterator::next_back", "std::iter::Iterator::find", "std::iter::Iterator::all", "std::iter::Iterator::any")
+    for c in b.calls:
+        if c.path not in LAZY:
+            continue
+        m = set()
+        for t in E.inline_targets(c):
+            m |= E.may(t)
+        if not m:
+            continue
+        for D in P.descendants(b):
+            eats = False
+            for k in D.calls:
+                if k.path in CONSUMING and k.args:
+                    for t in D.operand_prov(k.args[0]):
+                        if t[0] == "upvar":
+                            par, provs = P.upvar_origin(D, t[1])
+                            # through the chain of enclosing closures up to b
+                            hops = 0
+                            while par is not None and par.id != b.id and hops < 4 and all(pv[0] == "upvar" for pv in provs) and provs:
+                                hops += 1
+                                par, provs = P.upvar_origin(par, next(iter(provs))[1])
+                            if par is not None and par.id == b.id and any(pv[0] == "ret" and pv[1] == c.bb for pv in provs):
+                                eats = True
+            if not eats:
+                continue
+            top = D
+            while top.parent_id != b.id and top.parent_id in P.bodies and P.bodies[top.parent_id].kind == "closure":
+                top = P.bodies[top.parent_id]
+            for (role, s, idx) in E.roles.get(top.id, []):
+                if s.body.id == b.id:
+                    ev[s.bb] |= m
+                    if "new_observer" in m and "subscribe" in E.may(top):
+                        ev[s.bb].add("!registers-while-subscribing")
     return ev, iterating
 
 
@@ -613,6 +650,10 @@ def h_register_first(P, E, H):
                     break
             if bad:
                 break
+        if not bad:
+            for bb_, s_ in ev.items():
+                if "!registers-while-subscribing" in s_:
+                    bad = (bb_, bb_)
         if not bad:
             for (bb, tid) in iterating:
                 tm = E.may(P.bodies[tid])
